@@ -160,10 +160,14 @@ static Bytes decodeTecmp(fz::Reader& in)
             break;
         case 2:
             r.trailer = in.bytes(in.u8() % 8);
+            if (in.u8() % 4 == 0)
+                r.vendorLen = in.u16();
             break;
         case 3:
-            r.entries = in.u8() % 14;
+            r.entries = in.u8() % 64;
             r.trailer = in.bytes(in.u8() % 12);
+            if (in.u8() % 3 == 0)
+                r.vendorLen = in.u16();
             break;
         default:
             r.data = in.bytes(in.u8() % 64);
